@@ -17,6 +17,11 @@ EXTENSIONS = [
          text="X04: APK.get_uses_implied_permission_list as the platform's package-parser procedure (new permissions below API 4, then the split rules one at a time in any order) over every subset of the "
               "seven permissions x target / min level; TLC: ClosedForm (every order ends in the closed form), NeverAsked, Closed, Justified, Grows, Terminates; every enumerated manifest is written by the "
               "independent AXML writer, parsed by APK and validated by ImpliedPerms_Trace (vf/props/x04.py); no finding"),
+    dict(name="tlc+IconSelect", path="/verif/spec/IconSelect.tla",
+         text="X05: APK.get_app_icon as a procedure (main activity's icon, else the application's, else mipmap/ic_launcher, else drawable/ic_launcher; then a scan of the resource's configurations for the "
+              "largest density not above max_dpi); TLC (IconSelectMC): ClosedForm, PickIsCandidate, OrderFree (independent of the table order), Improves, Terminates; every enumerated case is built as an "
+              "APK (independent AXML and ARSC writers), queried and validated by IconSelect_Trace (vf/props/x05.py); finding: the main activity's icon is ignored when the manifest names the activity "
+              "relative to the package ('.Main'): the lookup compares the raw attribute with the qualified name"),
 ]
 
 
